@@ -292,9 +292,9 @@ func init() {
 		Rule: "data graph of depth 3 from a struct/map/slice/pointer type family (repeated field names at several depths, prefix names Kids/KidsX, value- and pointer-receiver methods returning leaves/structs/slices, every leaf string spelling its own Go path); from 7 roots (struct value, pointer, slices and a leaf under names that are also field names, a map) every walk of the type graph of <=L steps (field, index, map key, method call) ending at a string leaf, with indexes/keys spelled as literals, variables, i+0 expressions and variables named like fields; each used in an output tag, through let, and (for walks through a slice) as loop iterable with the tail applied to the loop variable. Expected value = Go navigation by reflection. Every walk prefix is also extended by one uncompletable step (missing key, nil pointer then member/method, index 9 / -1 via variable, unknown field/method, unexported field). Oracle: completable => exactly the leaf, or an error; never another value, never empty without error. Uncompletable => error or empty output, never a leaf, never a panic. Non-trivial: walks with >=2 steps.",
 		Bound: func(th bool) string {
 			if th {
-				return "walk length <=6"
+				return "walk length <=7"
 			}
-			return "walk length <=5"
+			return "walk length <=6"
 		},
 	})
 }
@@ -303,9 +303,9 @@ func c11Run(t *engine.T, shard string) {
 	var ri, gi int
 	fmt.Sscanf(shard, "%d:%d", &ri, &gi)
 	rs := c11Roots()[ri]
-	L := 5
+	L := 6
 	if t.Thorough {
-		L = 6
+		L = 7
 	}
 	good, _ := c11Options(rs.start)
 	var rec func(v reflect.Value, steps []c11Step)
